@@ -101,10 +101,15 @@ Record NY (y : ym) (i : nat) (nd : node) : Prop := {
   ny_st : hsok (stof (y_st y) i) (Server.s_handlers (n_srv nd));
   ny_rq : lreq i (y_rq y) (n_link nd);
   ny_ids : forall id, ys_has_id (y_ys y) i id = true ->
-             In id (map Server.h_id (Server.s_handlers (n_srv nd))) }.
+             In id (map Server.h_id (Server.s_handlers (n_srv nd)));
+  (* incarnation k of node i serves the request id of the recorded yield (i, k) *)
+  ny_hid : forall k hr, nth_error (Server.s_handlers (n_srv nd)) k = Some hr ->
+             exists b, In (i, k, Server.h_id hr, b) (y_ys y);
+  (* a recorded yield was recorded as written on that link, same id and body *)
+  ny_sub : forall k id b, In (i, k, id, b) (y_ys y) -> In (i, id, b) (y_rq y) }.
 
 Lemma ny_eq y i nd nd' : n_link nd' = n_link nd -> n_srv nd' = n_srv nd -> NY y i nd -> NY y i nd'.
-Proof. intros E1 E2 [A B C D F]. constructor; rewrite ?E1, ?E2; assumption. Qed.
+Proof. intros E1 E2 [A B C D F HD SB]. constructor; rewrite ?E1, ?E2; assumption. Qed.
 
 Lemma lreq_mono i R R' l : incl R R' -> lreq i R l -> lreq i R' l.
 Proof. intros I H id dl tr b Hin. apply I. eapply H, Hin. Qed.
@@ -155,7 +160,7 @@ Lemma ny_sstep_handler y i k st nd nd1 l :
   /\ (forall hr, nth_error (Server.s_handlers (n_srv nd)) k = Some hr -> Server.h_st hr = Server.HYielded ->
       forall hr', nth_error (Server.s_handlers (n_srv nd1)) k = Some hr' -> Server.h_st hr' <> Server.HYielded).
 Proof.
-  unfold sstep, Server.step. intros E [A B C D G].
+  unfold sstep, Server.step. intros E [A B C D G HD SB].
   pose proof (ChainResp2Srv.hs_execute_poll k st (Server.set_t (n_srv nd) (n_link nd))) as (E1 & M & F).
   destruct (Server.execute_poll k st _) as [s1 l1]. injection E as <- _. cbn [fst] in *.
   cbn [n_srv n_link]. destruct M as (L & M & MI). cbn [Server.s_handlers Server.set_t] in L, M, MI.
@@ -166,6 +171,12 @@ Proof.
   - eapply ChainResp2Srv.hsok_mono; [split; [exact L|split; [exact M|exact MI]]|exact C].
   - rewrite E1. exact D.
   - rewrite MI. exact G.
+  - intros k0 hr' Eh.
+    assert (X : nth_error (map Server.h_id (Server.s_handlers s1)) k0 = Some (Server.h_id hr'))
+      by (rewrite nth_error_map, Eh; reflexivity).
+    rewrite MI, nth_error_map in X. destruct (nth_error (Server.s_handlers (n_srv nd)) k0) as [hr|] eqn:Eo; [|discriminate].
+    cbn in X. injection X as X. rewrite <- X. apply (HD k0 hr Eo).
+  - exact SB.
 Qed.
 
 (* the handler has started: record it *)
@@ -174,13 +185,13 @@ Lemma ny_started y i k nd :
   (forall hr, nth_error (Server.s_handlers (n_srv nd)) k = Some hr -> Server.h_st hr <> Server.HYielded) ->
   NY (mkym (y_rq y) (y_ys y) ((i, k) :: y_st y) (y_yield y) (y_start y)) i nd.
 Proof.
-  intros [A B C D G] L H. constructor; cbn [y_rq y_ys y_st]; try assumption.
+  intros [A B C D G HD SB] L H. constructor; cbn [y_rq y_ys y_st]; try assumption.
   rewrite stof_cons_same. intros k0 [<-|Hk]; [split; assumption|apply C, Hk].
 Qed.
 Lemma ny_started_other y i i' k nd :
   i' <> i -> NY y i nd -> NY (mkym (y_rq y) (y_ys y) ((i', k) :: y_st y) (y_yield y) (y_start y)) i nd.
 Proof.
-  intros N [A B C D G]. constructor; cbn [y_rq y_ys y_st]; try assumption.
+  intros N [A B C D G HD SB]. constructor; cbn [y_rq y_ys y_st]; try assumption.
   rewrite stof_cons_other by exact N. exact C.
 Qed.
 
@@ -203,7 +214,7 @@ Lemma ys_poll_dispatch y i ch ch' l :
 Proof.
   intros HS E. unfold Chain.poll_dispatch in E. destruct (nth_error ch i) as [nd|] eqn:E0; [|pinj E; exact HS].
   destruct (cstep nd Client.PollDispatch) as [nd1 l1] eqn:ES. pinj E.
-  pose proof (ys_n _ _ HS _ _ E0) as [A B C D G].
+  pose proof (ys_n _ _ HS _ _ E0) as [A B C D G HD SB].
   unfold cstep in ES. set (c0 := Client.upd_tr _ _ _ _) in ES.
   destruct (Client.step ctp cfuel c0 Client.PollDispatch) as [c1 os] eqn:EC. pinj ES.
   destruct (ChainResp2Cli.c2ok_step_dispatch cfuel i (y_rq y) _ _ _ EC D) as [[-> ET]|(lg & r & a & b & -> & W)].
@@ -218,9 +229,11 @@ Proof.
     assert (I1 : incl (y_rq y) (y_rq y1)) by (rewrite ERQ; intros x Hx; apply ChainResp2Cli.wreq_incl, Hx).
     assert (HS1 : YS y1 ch).
     { destruct HS as [P1 P2 P3]. constructor; [unfold y1; cbn; rewrite P1; reflexivity|unfold y1; cbn; rewrite P2; reflexivity|].
-      intros j x Ex. destruct (P3 _ _ Ex) as [A' B' C' D' G']. constructor; try assumption.
-      eapply lreq_mono; [exact I1|exact D']. }
-    apply ys_set_node; [exact HS1|]. constructor; cbn [n_srv n_link]; assumption.
+      intros j x Ex. destruct (P3 _ _ Ex) as [A' B' C' D' G' HD' SB']. constructor; try assumption.
+      - eapply lreq_mono; [exact I1|exact D'].
+      - intros k0 id0 b0 Hin. apply I1. eapply SB', Hin. }
+    apply ys_set_node; [exact HS1|]. constructor; cbn [n_srv n_link]; try assumption.
+    intros k0 id0 b0 Hin. apply I1. eapply SB, Hin.
 Qed.
 
 Lemma ys_poll_requests y i ch ch' l :
@@ -229,7 +242,7 @@ Proof.
   intros HS E. unfold poll_requests in E. destruct (nth_error ch i) as [nd|] eqn:E0; [|pinj E; exact HS].
   destruct (n_over nd || _); [pinj E; exact HS|].
   destruct (sstep nd Server.OPoll) as [nd1 l1] eqn:ES. pinj E.
-  pose proof (ys_n _ _ HS _ _ E0) as [A B C D G].
+  pose proof (ys_n _ _ HS _ _ E0) as [A B C D G HD SB].
   unfold sstep in ES. set (s0 := Server.set_t (n_srv nd) (n_link nd)) in ES.
   destruct (Server.step stp _ _ scfg s0 Server.OPoll) as [s1 os] eqn:EP. pinj ES.
   assert (P0 : ChainResp2Srv.P i (y_rq y) (length (Server.s_handlers s0)) (stof (y_st y) i)
@@ -250,6 +263,12 @@ Proof.
     + exact P3.
     + exact P1.
     + rewrite P4. exact G.
+    + intros k0 hr' Eh.
+      assert (X : nth_error (map Server.h_id (Server.s_handlers s1)) k0 = Some (Server.h_id hr'))
+        by (rewrite nth_error_map, Eh; reflexivity).
+      rewrite P4, nth_error_map in X. destruct (nth_error (Server.s_handlers (n_srv nd)) k0) as [hr|] eqn:Eo; [|discriminate].
+      cbn in X. injection X as X. rewrite <- X. apply (HD k0 hr Eo).
+    + exact SB.
   - (* one request yielded *)
     cbn [Server.s_handlers Server.set_t s0] in LH, HI |- *.
     set (n := length (Server.s_handlers (n_srv nd))) in *.
@@ -277,11 +296,25 @@ Proof.
            rewrite EH, map_app, HI. apply in_or_app. apply orb_true_iff in Hid. destruct Hid as [Hid|Hid].
            ++ right. apply N.eqb_eq in Hid. subst id0. left. reflexivity.
            ++ left. apply G, Hid.
-      * rewrite (nth_set_node_other i j _ ch Ne) in Ex. destruct (P3 _ _ Ex) as [A' B' C' D' G'].
+        -- intros k0 hr' Eh. rewrite EH in Eh.
+           destruct (Nat.lt_ge_cases k0 (length hs2)) as [Lt|Ge].
+           ++ rewrite nth_error_app1 in Eh by exact Lt.
+              assert (X : nth_error (map Server.h_id hs2) k0 = Some (Server.h_id hr'))
+                by (rewrite nth_error_map, Eh; reflexivity).
+              rewrite HI, nth_error_map in X.
+              destruct (nth_error (Server.s_handlers (n_srv nd)) k0) as [hr|] eqn:Eo; [|discriminate].
+              cbn in X. injection X as X. rewrite <- X. destruct (HD k0 hr Eo) as (b0 & Hb). exists b0. right. exact Hb.
+           ++ rewrite nth_error_app2 in Eh by exact Ge. destruct (k0 - length hs2) as [|m] eqn:Em; cbn in Eh.
+              ** injection Eh as <-. cbn. exists b. left. f_equal. f_equal. f_equal. fold n. lia.
+              ** destruct m; discriminate.
+        -- intros k0 id0 b0 [[= <- <- <-]|Hin]; [exact IR|eapply SB, Hin].
+      * rewrite (nth_set_node_other i j _ ch Ne) in Ex. destruct (P3 _ _ Ex) as [A' B' C' D' G' HD' SB'].
         constructor; unfold y1; cbn [y_rq y_ys y_st ystep ys_obs st_obs rq_obs]; try assumption.
         -- rewrite ys_count_cons. destruct (Nat.eqb_spec j i); [congruence|exact A'].
         -- intros k Hk. rewrite ys_body_cons. destruct (Nat.eqb_spec j i); [congruence|]. cbn. apply B', Hk.
         -- intros id0 Hid. rewrite ys_has_id_cons in Hid. destruct (Nat.eqb_spec j i); [congruence|]. apply G', Hid.
+        -- intros k0 hr Eh. destruct (HD' k0 hr Eh) as (b0 & Hb). exists b0. right. exact Hb.
+        -- intros k0 id0 b0 [[= X _ _ _]|Hin]; [congruence|eapply SB', Hin].
 Qed.
 
 Lemma inner_poll_frame k nd nx nd1 nx1 st :
@@ -320,7 +353,7 @@ Qed.
 
 Lemma ny_ext y y' i nd :
   y_rq y' = y_rq y -> y_ys y' = y_ys y -> y_st y' = y_st y -> NY y i nd -> NY y' i nd.
-Proof. intros E1 E2 E3 [A B C D G]. constructor; rewrite ?E1, ?E2, ?E3; assumption. Qed.
+Proof. intros E1 E2 E3 [A B C D G HD SB]. constructor; rewrite ?E1, ?E2, ?E3; assumption. Qed.
 
 (* recording a start on a chain whose node i has its handler k out of HYielded *)
 Lemma ys_start y i k ch :
@@ -527,21 +560,21 @@ Proof.
     destruct (Client.dropped _); [pinj E; exact HS|].
     destruct (cstep nd Client.DropDispatch) as [nd1 l1] eqn:ES. pinj E. cbn [fold_left].
     apply ys_set_node; [exact HS|].
-    destruct (ny_cstep y i _ _ _ _ ES ltac:(discriminate) ltac:(discriminate) (ys_n _ _ HS _ _ E0)) as [A B C D G].
+    destruct (ny_cstep y i _ _ _ _ ES ltac:(discriminate) ltac:(discriminate) (ys_n _ _ HS _ _ E0)) as [A B C D G HD SB].
     constructor; assumption.
   - destruct (nth_error ch i) as [nd|] eqn:E0; [|pinj E; exact HS].
     destruct (Server.s_dropped _); [pinj E; exact HS|].
     destruct (sstep nd Server.ODropChannel) as [nd1 l1] eqn:ES. pinj E. cbn [fold_left].
     apply ys_set_node; [exact HS|].
     destruct (sstep_drop_frame nd nd1 l1 ES) as (E1 & E2).
-    destruct (ys_n _ _ HS _ _ E0) as [A B C D G]. constructor; cbn [n_srv n_link]; rewrite ?E1, ?E2; assumption.
+    destruct (ys_n _ _ HS _ _ E0) as [A B C D G HD SB]. constructor; cbn [n_srv n_link]; rewrite ?E1, ?E2; assumption.
   - pinj E. cbn [fold_left]. destruct HS as [A B C]. constructor; [exact A|exact B|].
     intros j x Hx. rewrite nth_error_map in Hx.
     destruct (nth_error ch j) as [nd|] eqn:E0; [|discriminate]. injection Hx as <-.
     unfold advance_node. destruct (cstep nd (Client.Advance dt)) as [nd1 l1] eqn:E1.
     destruct (sstep nd1 (Server.OAdvance dt)) as [nd2 l2] eqn:E2.
     destruct (sstep_adv_frame dt nd1 nd2 l2 E2) as (F1 & F2).
-    pose proof (ny_cstep y j _ _ _ _ E1 ltac:(discriminate) ltac:(discriminate) (C _ _ E0)) as [A' B' C' D' G'].
+    pose proof (ny_cstep y j _ _ _ _ E1 ltac:(discriminate) ltac:(discriminate) (C _ _ E0)) as [A' B' C' D' G' HD' SB'].
     constructor; rewrite ?F1, ?F2; assumption.
   - eapply ys_settle_all; eassumption.
 Qed.
@@ -576,6 +609,8 @@ Proof.
   - intros k [].
   - intros id dl tr b [].
   - intros id [=].
+  - intros k hr Eh. destruct k; discriminate.
+  - intros k id b [].
 Qed.
 
 Theorem chain_resp_yield : stmt_resp_yield.
